@@ -9,7 +9,5 @@ python3 tools/gen_registry.py
 (cd lean && lake build)
 [ -f harness/Cargo.lock ] || cp /repo/Cargo.lock harness/Cargo.lock
 (cd harness && cargo build --offline --workspace)
-if grep -l '"needs_jj_bin": *true' props/C*.json >/dev/null 2>&1; then
-  (cd harness && RUSTFLAGS="--cfg jj_vcs_jj_verif" cargo build --offline --manifest-path /repo/Cargo.toml --bin jj --target-dir target-jj)
-fi
+ln -sf jjverif-cli harness/target/debug/jj
 echo setup done
